@@ -74,9 +74,9 @@ Proof. exact F.built_valid. Qed.
 (* path expressions are shared through their representation string as well: it is injective on the path expressions of the model (step, test, choice,
    sequence, iteration, nested), and no formula has the representation of a path expression (Gen/FromReps.v regenerated from theory/path.py, body.py) *)
 Require RepsProofs.
-Theorem C05_path_representation_is_injective : forall p q : RepsProofs.path, RepsProofs.prep p = RepsProofs.prep q -> p = q.
+Theorem C05_path_representation_is_injective : forall p q : RepsProofs.path, RepsProofs.flat (RepsProofs.prep p) = RepsProofs.flat (RepsProofs.prep q) -> p = q.
 Proof. exact RepsProofs.prep_injective. Qed.
-Theorem C05_formulas_and_paths_have_different_representations : forall (f : RepsProofs.bf) (p : RepsProofs.path), RepsProofs.rep f <> RepsProofs.prep p.
+Theorem C05_formulas_and_paths_have_different_representations : forall (f : RepsProofs.bf) (p : RepsProofs.path), RepsProofs.flat (RepsProofs.rep f) <> RepsProofs.flat (RepsProofs.prep p).
 Proof. exact RepsProofs.rep_is_not_a_path. Qed.
 Print Assumptions C05_path_representation_is_injective.
 Print Assumptions C05_formulas_and_paths_have_different_representations.
